@@ -117,8 +117,9 @@ inductive Cmd (α : Type) : Type where
   | setLen (r : Nat) (v : Nat) (k : Cmd α)
   | setS (r : Nat) (v : Text) (k : Cmd α)
   | setWidth (r : Nat) (v : Int) (k : Cmd α)
-  /-- in-place change of a run's attribute dict. No operation of the library does this on purpose; it
-      exists because `FrozenAttributes.__init__` can be re-called (known finding D24). The checked
+  /-- in-place change of a run's attribute dict. NO operation of the library uses it (every in-place method
+      of `FrozenAttributes`, `__init__` on an initialised instance included since the repair of D24, raises);
+      it exists so that `C13_primitives_can_break` can show what such a change would do. The checked
       interpreter refuses it. -/
   | setAtts (c : Nat) (a : Atts) (k : Cmd α)
 
@@ -770,9 +771,9 @@ inductive Op
   | eq (a : Nat) (other : Arg)                          -- a == other
   | hash (a : Nat)                                      -- hash(a) = hash(str(a)); the number itself is not modelled
   | setitem (a : Nat)                                   -- f[i] = x
-  /-- `f.chunks[k].atts.<name>(…)` for a method name of `dir(dict)` that changes a plain dict.
-      `after` = the dict a plain `dict` would hold after the call (data; used only for `__init__`). -/
-  | attsMutate (a : Nat) (k : Nat) (name : String) (after : Atts)
+  /-- `f.chunks[k].atts.<name>(…)` for a method name of `dir(dict)` that changes a plain dict
+      (`Generated.dictMutators`; the driver refuses other names) -/
+  | attsMutate (a : Nat) (k : Nat) (name : String)
 
 /-- what an operation returns -/
 inductive Res
@@ -805,7 +806,7 @@ def opRefs : Op → List Nat
   | .splice a new _ _ | .append a new | .eq a new => a :: new.refs
   | .addStr a _ | .raddStr a _ | .mul a _ | .getitem a _ | .cwna a _ | .nwar a _ | .cwns a _ | .copy a
   | .slices a _ | .just _ a _ _ _ | .wslice a _ | .wsplit a _ _ | .deleg a _ _
-  | .obsStr a | .obsLen a | .obsS a | .obsWidth a | .obsColor a _ | .hash a | .setitem a | .attsMutate a _ _ _ | .obsInterrupted _ a _ => [a]
+  | .obsStr a | .obsLen a | .obsS a | .obsWidth a | .obsColor a _ | .hash a | .setitem a | .attsMutate a _ _ | .obsInterrupted _ a _ => [a]
 
 /-- The command of an operation. -/
 def opCmd (u : UEnv) : Op → Cmd Res
@@ -855,18 +856,9 @@ def opCmd (u : UEnv) : Op → Cmd Res
     pure .opaque
   -- `FmtStr.__setitem__`: `raise Exception("No!")`
   | .setitem _ => pure (.err .otherException)
-  -- every in-place method of `FrozenAttributes` is `raise Exception("Cannot change value.")` - except
-  -- `__init__`, which the class does not override: `dict.__init__` updates the run's dict in place and
-  -- returns None (known finding D24)
-  | .attsMutate a k name after =>
-    if name = "__init__" then do
-      let cs ← contents a
-      match cs[k]? with
-      | none => pure (.err .indexError)
-      | some c => do
-        setAtts c after
-        pure (.refs [])
-    else pure (.err .otherException)
+  -- every in-place method of `FrozenAttributes` (`__setitem__`, `update`, `__delitem__`, `__ior__`, `pop`,
+  -- `popitem`, `clear`, `setdefault`, and `__init__` on an initialised instance): `raise Exception("Cannot change value.")`
+  | .attsMutate _ _ _ => pure (.err .otherException)
 
 /-- One operation on a heap (plain semantics). -/
 def runOp (u : UEnv) (op : Op) (h : Heap) : Option (Res × Heap) := run u (opCmd u op) h
